@@ -68,9 +68,19 @@ def run(ctx):
     calls = flags = total = 0
     for job, name, tr, h, r in ctx.pmap(one, jobs):
         for pn in h["panics"]:
-            # a crash of the plugin is a C07 finding; C15 reports it only as context
-            ctx.other("C07")
-            ctx.note("plugin run %s ended abnormally: %s" % (name, json.dumps(pn)[:300]))
+            # a crash of the plugin is a C07 finding; it is also a C15 violation when the call that did
+            # not return is make_move or set_board (the move was neither applied nor reported invalid)
+            pend = ""
+            if os.path.exists(tr + ".pending"):
+                pend = open(tr + ".pending").read()
+            if " make_move " in pend or " set_board " in pend:
+                kept = os.path.join(REPLAYS, "C15-%s-%d-trace-%s.ndjson" % (ctx.tier, ctx.seed, name))
+                shutil.copy(tr, kept)
+                ctx.violation("call-did-not-return (the plugin aborted the process)", {"call": pend[:300], "panic": pn},
+                              {"kind": "harness", "args": [str(a) for a in h["args"]], "trace": kept, "pending": pend[:300]})
+            else:
+                ctx.other("C07")
+                ctx.note("plugin run %s ended abnormally in %s: %s" % (name, pend[:120], json.dumps(pn)[:300]))
         done = list(ctx.tlc_lines(r["out_path"], "DONE"))
         if not done or done[0]["lines"] != done[0]["consumed"]:
             raise ToolError("bot trace validation failed (%s): %s" % (name, r["errors"][:3]))
@@ -100,6 +110,8 @@ def run(ctx):
             evs = [json.loads(x) for x in open(tr).read().split("\n")[1:5] if x]
             ctx.sample({"direction": "impl->spec", "scenario": name, "events": [{k: v for k, v in e.items() if k != "board"} for e in evs]})
         os.remove(tr)
+        if os.path.exists(tr + ".pending"):
+            os.remove(tr + ".pending")
         os.remove(r["out_path"])
     ctx.cov["evaluations"] += calls
     ctx.cov["distinct_nontrivial"] += flags
